@@ -1718,25 +1718,40 @@ def c13(ctx):
                            "original_trace": oimpl["trace"], "variant_trace": vimpl["trace"]})
     # descriptions: '#' runs directly above the header only (section.Split vs model)
     fcs = []
-    for i, c in enumerate(cases[: (80 if ctx.tier == "quick" else 2000)]):
+    def decorated(c):
         desc, header, meta, body = split_patch_text(c["patches"][0])
         extra = [rng.choice(["# above one", "#above two", "   #   spaced  "]) for _ in range(rng.randint(0, 2))]
-        far = ["# far away", ""] if False else []
-        text = "\n".join(far + extra + desc + [header] + ["# in meta"] + meta + ["@@"] + body[:1] + ["# in body"] + body[1:]) + "\n"
+        tail = ["# after the body"] if rng.random() < 0.5 else []
+        lines = extra + desc + [header] + ["# in meta"] + meta + ["@@"] + body[:1] + ["# in body"] + body[1:] + tail
         want = [re.sub(r"^\s*#", "", l, count=1).strip() if not l.startswith(" ") else l[1:].strip() for l in extra + desc]
-        fcs.append({"id": f"d{i}", "patch": text, "want": want})
+        return lines, want
+    sub = [c for c in cases if sum(1 for l in c["patches"][0].split("\n") if l.startswith("@")) == 2][: (80 if ctx.tier == "quick" else 2000)]
+    for i, c in enumerate(sub):
+        lines, want = decorated(c)
+        wants = [want]
+        if i % 2 == 1:
+            # a second change after the first: '#' lines inside or after the first change that are not directly
+            # above the second header (a blank or code line follows them) belong to nobody
+            l2, w2 = decorated(sub[(i * 7 + 3) % len(sub)])
+            sep = [""] if rng.random() < 0.7 or not lines[-1].startswith("#") else []
+            if not sep:
+                w2 = ["after the body"] + w2
+            lines = lines + sep + l2
+            wants.append(w2)
+        fcs.append({"id": f"d{i}", "patch": "\n".join(lines) + "\n", "want": wants})
     for c, impl, model in run_front(ctx, fcs):
         ctx.evaluations += 1
         sx = parse_sx(impl)
         chs = sx_field(sx[2:], "changes") or []
-        got = [cl.sx_unquote(x) for x in (sx_field(chs[0][1:], "comments") or [])] if chs else None
+        got = [[cl.sx_unquote(x) for x in (sx_field(ch[1:], "comments") or [])] for ch in chs] if chs else None
         msx = parse_sx(model)
         mchs = sx_field(msx[2:], "changes") or []
-        mgot = [cl.sx_unquote(x) for x in (sx_field(mchs[0][1:], "comments") or [])] if mchs else None
+        mgot = [[cl.sx_unquote(x) for x in (sx_field(ch[1:], "comments") or [])] for ch in mchs] if mchs else None
+        ctx.count("description_cases:" + str(len(c["want"])))
         if got != mgot:
             ctx.violation(f"description lines {got} differ from the specification {mgot}", {"input": {"patch": c["patch"]}})
         elif got is not None and got != c["want"]:
-            ctx.violation(f"description {got}: expected exactly the '#' lines directly above the header {c['want']}", {"input": {"patch": c["patch"]}})
+            ctx.violation(f"descriptions {got}: expected exactly the '#' lines directly above each header {c['want']}", {"input": {"patch": c["patch"]}})
 
 # --- C08 -------------------------------------------------------------------
 ILL_TYPED = [
@@ -2076,6 +2091,10 @@ def imports_of_source(text):
             break
     return out
 
+@signature("import-merge-comment-loss")
+def sig_import_merge(sig, what, payload):
+    return bool(payload.get("import_merge_only"))
+
 @signature("crlf-original-diff")
 def sig_crlf_diff(sig, what, payload):
     probs = payload.get("problems") or []
@@ -2085,6 +2104,11 @@ def sig_crlf_diff(sig, what, payload):
 @signature("paren-in-later-minus")
 def sig_paren_minus(sig, what, payload):
     chain = (payload.get("input") or {}).get("chain") or []
+    src = (payload.get("input") or {}).get("src") or ""
+    # the source itself has a parenthesised condition in an if/for/switch header: go/printer strips those parentheses
+    # (stripParens), so a metavariable bound to the condition is "(e)" in memory and "e" after re-parsing
+    if len(chain) > 1 and re.search(r"(?m)^\s*(\}\s*else\s+)?(if|for|switch)\b[^\n{]*?(^|[;\s])\((?!\)).*\)\s*(;[^\n{]*)?\{\s*(//.*|/\*.*)?$", src):
+        return True
     # a later change whose '-' side (context or '-' lines) contains a parenthesised expression that is not a call's
     # argument list, a conversion or a parameter list: printing the intermediate file may drop or add such parentheses
     for ch in chain[1:]:
@@ -2323,6 +2347,9 @@ def c17(ctx):
             continue
         jobs.append((f"m{i}", m["patches"], src))
     ctx.count("multi_change_jobs", sum(1 for j in jobs if j[0].startswith("m")))
+    for k in ctx.known:
+        if k["id"] == "F18":
+            jobs.append(("f18", [k["witness"]["patch"]], k["witness"]["file"]))
     def one(job):
         cid, patches, src = job
         root = ctx.scratch("c17")
@@ -2381,9 +2408,69 @@ def c17(ctx):
         if len(ctx.samples) < 2 and o["untouched"] > 0:
             ctx.sample({"patch": patches[0][:300], "src": src[:500], "untouched_declarations": o["untouched"], "comments": o["comments"]})
         if o.get("problems"):
-            ctx.violation("; ".join(o["problems"][:2])[:600], {"input": {"patches": patches, "src": src}, "output": body,
-                                                                 "problems": o["problems"],
-                                                                 "reproduce": "gopatch -p p0.patch --print-only a.go"})
+            payload = {"input": {"patches": patches, "src": src}, "output": body, "problems": o["problems"],
+                       "reproduce": "gopatch -p p0.patch --print-only a.go"}
+            # F18: is the loss caused by import declarations being merged (the declaration list shifts and the
+            # heuristic list diff pairs declarations wrongly)? Decided by running the same case with the file's
+            # import declarations already grouped into one.
+            if all("syntactically unchanged but its comments changed" in p for p in o["problems"]) and any("+import" in p for p in patches):
+                g = group_imports(src)
+                if g and g != src and not c17_problems(ctx, one, patches, g):
+                    payload["import_merge_only"] = True
+            ctx.violation("; ".join(o["problems"][:2])[:600], payload)
+
+def group_imports(src):
+    """the same file with all its leading import declarations grouped into one block (None if there is nothing to group)"""
+    lines = src.split("\n")
+    i = 0
+    while i < len(lines) and not lines[i].startswith("import"):
+        if lines[i].startswith(("func ", "type ", "var ", "const ")):
+            return None
+        i += 1
+    start, specs, ndecl = i, [], 0
+    while i < len(lines):
+        l = lines[i]
+        if l.startswith("import ("):
+            ndecl += 1
+            i += 1
+            while i < len(lines) and not lines[i].startswith(")"):
+                if lines[i].strip():
+                    specs.append(lines[i].strip())
+                i += 1
+            i += 1
+        elif l.startswith("import "):
+            ndecl += 1
+            specs.append(l[len("import "):].strip())
+            i += 1
+        elif not l.strip():
+            i += 1
+        else:
+            break
+    if ndecl < 2:
+        return None
+    return "\n".join(lines[:start] + ["import ("] + ["\t" + sp for sp in specs] + [")", ""] + lines[i:])
+
+def c17_problems(ctx, one, patches, src):
+    """comment problems of a single (patches, file) case: list of strings (empty when the case is fine or not patched)"""
+    cid, _, _, code, patched, body = one(("v", patches, src))
+    if code != 0 or not patched:
+        return ["not patched"]
+    dd = ctx.scratch("c17v")
+    with open(os.path.join(dd, "in.jsonl"), "w") as f:
+        f.write(json.dumps({"id": "v", "patches": patches, "src": src}) + "\n")
+    touched = None
+    for inp, orig, impl, model, same in run_engine_batch(ctx, ["-inputs", os.path.join(dd, "in.jsonl")], "c17v"):
+        touched = model.get("touched", [])
+    if touched is None:
+        return ["no model answer"]
+    pth = os.path.join(dd, "cc.jsonl")
+    with open(pth, "w") as f:
+        f.write(json.dumps({"id": "v", "orig": src, "out": body, "touched": touched}) + "\n")
+    r = run([ctx.harness, "commentcheck", "-inputs", pth])
+    for l in r.stdout.splitlines():
+        o = json.loads(l)
+        return o.get("problems") or []
+    return ["commentcheck gave no answer"]
 
 def c17_intervals_tie(ctx, jobs):
     """Lean filterComments on the changed intervals of the real engine vs the comments of the real output"""
